@@ -20,6 +20,7 @@ func init() {
 			c.run("C16-R5", "WHO-CALLS: junk tolerance forced by tunnel / config", c16R5)
 			c.run("C16-R7", "GUARD-DOM: the relay frames lines for a Windows side exactly when that side is Windows and the tunnel is not in use", c16R7)
 			c.run("C16-R8", "WHO-CALLS: protocol-side decisions use the environment predicate, not the host-OS predicate", c16WinPredicates)
+			c.run("C16-R9", "LITERAL: the status stripper skips exactly the length of each marker it found", c16StripLens)
 			c.run("C16-R6", "PAIR: the Windows reader's duplicate flag is consumed by the first kept letter", c16R6)
 		})
 }
@@ -618,6 +619,34 @@ type assumption struct {
 	// wrote the comparison (==, != and negations): reports whether the fact is about the same pair and whether
 	// it states equality.
 	cmp func(op token.Token, x, y ssa.Value) (applies, equal bool)
+	// truth (optional): the assumption fixes the VALUE of something; given a comparison fact about it, reports whether
+	// the fact is about that thing and whether it is true under the assumption (x == k is true iff k is the assumed value)
+	truth func(op token.Token, x, y ssa.Value) (applies, holds bool)
+}
+
+// valueIs: the integer/char/string-valued expression recognised by pred has the constant value want.
+func valueIs(pred func(ssa.Value) bool, want int64) assumption {
+	return assumption{truth: func(op token.Token, x, y ssa.Value) (bool, bool) {
+		k, isK := constInt(y)
+		if !isK || !pred(x) {
+			return false, false
+		}
+		switch op {
+		case token.EQL:
+			return true, k == want
+		case token.NEQ:
+			return true, k != want
+		case token.LSS:
+			return true, want < k
+		case token.LEQ:
+			return true, want <= k
+		case token.GTR:
+			return true, want > k
+		case token.GEQ:
+			return true, want >= k
+		}
+		return false, false
+	}}
 }
 
 // contradicts: taking the edge from->to is impossible under the assumptions (the branch condition is one of the
@@ -626,6 +655,14 @@ func contradicts(as []assumption) func(from, to *ssa.BasicBlock) bool {
 	return func(from, to *ssa.BasicBlock) bool {
 		for _, f := range edgeFactsTo(from, to) {
 			for _, a := range as {
+				if a.truth != nil {
+					if op, x, y, ok := cmpFact(f); ok {
+						if applies, holds := a.truth(op, x, y); applies && !holds {
+							return true
+						}
+					}
+					continue
+				}
 				if a.cmp != nil {
 					if op, x, y, ok := cmpFact(f); ok {
 						if applies, equal := a.cmp(op, x, y); applies && equal != a.val {
@@ -785,12 +822,17 @@ func evalBoolUnder(v ssa.Value, as []assumption, reach map[*ssa.BasicBlock]bool,
 		return b, true
 	}
 	for _, a := range as {
-		if a.cmp == nil && a.pred != nil && a.pred(v) {
+		if a.cmp == nil && a.truth == nil && a.pred != nil && a.pred(v) {
 			return a.val, true
 		}
 	}
 	if op, x, y, ok := cmpFact(fact{V: v, Pol: true}); ok {
 		for _, a := range as {
+			if a.truth != nil {
+				if applies, holds := a.truth(op, x, y); applies {
+					return holds, true
+				}
+			}
 			if a.cmp != nil {
 				if applies, equal := a.cmp(op, x, y); applies {
 					return equal == a.val, true
@@ -863,5 +905,40 @@ func c16WinPredicates(c *Ctx) {
 	}
 	for fn := range protocolSide {
 		c.check(seenEnv[fn], fn+"/uses-environment-predicate", "", "this protocol-side function asks isWindowsEnvironment", "this protocol-side function no longer asks isWindowsEnvironment")
+	}
+}
+
+// c16StripLens: in the tmux status stripper every skip over a marker is exactly as long as the marker searched for
+// (the strings are searched with bytes.Index and then skipped with a literal number).
+func c16StripLens(c *Ctx) {
+	f := c.fn("trzszTransfer.stripTmuxStatusLine")
+	n := 0
+	for _, ci := range callsIn(f, idIs("bytes.Index")) {
+		mk, ok := constString(strip(ci.Common().Args[1]))
+		if !ok {
+			c.bad("stripTmuxStatusLine/marker", c.ipos(ci), "the marker searched for is not a constant")
+			continue
+		}
+		n++
+		// idx + K somewhere: K must be len(marker)
+		found, good := false, true
+		for _, r := range referrersOf(ci.Value()) {
+			b, isB := r.(*ssa.BinOp)
+			if !isB || b.Op != token.ADD {
+				continue
+			}
+			for _, opd := range []ssa.Value{b.X, b.Y} {
+				if k, isK := constInt(opd); isK {
+					found = true
+					if k != int64(len(mk)) {
+						good = false
+					}
+				}
+			}
+		}
+		c.check(found && good, fmt.Sprintf("stripTmuxStatusLine/skip=len(marker).%d", n), c.ipos(ci), "the skip after this marker is the marker's length", fmt.Sprintf("after finding %q the stripper skips a number of bytes that is not its length %d: a control byte is left in, or a payload byte is cut out", mk, len(mk)))
+	}
+	if n != 3 {
+		c.undecided("stripTmuxStatusLine/markers", "expected three marker searches (begin, middle, end)")
 	}
 }
